@@ -45,7 +45,9 @@ open Resolve
 
 /-- The code resolves a name exactly as the specification's steps 1-6 prescribe (order of the steps,
     destination, Host header and TLS server name of every target, refusal of invalid names), for every
-    name, every well-known outcome and every answer of a sane SRV resolver. -/
+    name, every well-known outcome and every answer of an SRV resolver whose successful lookups carry at
+    least one record — WHATEVER the targets of the records: a record whose target is the root `.` yields no
+    target (finding R8: it used to yield the destination ":port"). -/
 theorem resolve_eq_spec (o : Oracles) (name : Cidr.Str) (hs : Spec.SrvSane o.srv) :
     resolve o name = Spec.resolve o name := by
   unfold resolve Spec.resolve resolveNoWellKnown
@@ -78,7 +80,20 @@ example : Spec.SrvSane (fun _ _ => .notFound) := by intro _ _ _ h; cases h
 example : Spec.SrvSane (fun _ _ => .records [("matrix.otherexample.com.".toList, 4242)]) := by
   intro _ _ rs h
   cases h
-  exact ⟨by simp, by intro r hr; simp at hr; subst hr; decide⟩
+  simp
+
+/-- the old failing input of finding R8, now behaving: the only SRV record names the root — no target, where
+    the code used to return the destination ":8448" -/
+example :
+    resolve { wk := fun _ => none, srv := fun svc _ => if svc = "matrix-fed".toList then .records [(".".toList, 8448)] else .notFound }
+      "hs.example.org".toList = .ok [] := by
+  rfl
+
+/-- a root record among others is skipped, the others stay -/
+example :
+    resolve { wk := fun _ => none, srv := fun svc _ => if svc = "matrix-fed".toList then .records [("a.example.".toList, 1), (".".toList, 2)] else .notFound }
+      "hs.example.org".toList = .ok [⟨"a.example:1".toList, "hs.example.org".toList, "hs.example.org".toList⟩] := by
+  rfl
 
 /-- the worked example of the repository's own test (step 3.3): delegation to a hostname with an SRV record -/
 example :
@@ -141,36 +156,57 @@ theorem delegated_no_second_wellknown (o o' : Oracles) (name : Cidr.Str)
   unfold resolve resolveNoWellKnown
   rw [hwk, hsrv]
 
-/-- Resolution never succeeds with an empty target list. -/
+/-- Resolution never succeeds with an empty target list — except when an SRV lookup found records and EVERY one
+    of them names the root `.` as its target: the domain declares that the service is not available
+    (RFC 2782), there is nowhere to go, and RoundTrip gives up ("no address found"). -/
 theorem targets_nonempty_or_error (o : Oracles) (name : Cidr.Str) (hs : Spec.SrvSane o.srv) (ts : List Target)
-    (h : resolve o name = .ok ts) : ts ≠ [] := by
+    (h : resolve o name = .ok ts) :
+    ts ≠ [] ∨ ∃ svc n rs, o.srv svc n = .records rs ∧ rs ≠ [] ∧ ∀ r ∈ rs, Spec.rootTarget r = true := by
   rw [resolve_eq_spec o name hs] at h
-  have hfound : ∀ a rs, Spec.found a = some rs → Spec.srvTargets name rs ≠ [] ∧ rs ≠ [] := by
-    intro a rs hf
-    cases a with
-    | records l => cases l <;> simp [Spec.found] at hf; subst hf; simp [Spec.srvTargets]
-    | notFound => simp [Spec.found] at hf
-    | dnsError => simp [Spec.found] at hf
-    | otherError => simp [Spec.found] at hf
-  have hsrv : ∀ n, Spec.srvSteps o.srv n ≠ [] := by
+  have hfound : ∀ svc n rs, Spec.found (o.srv svc n) = some rs →
+      Spec.srvTargets n rs ≠ [] ∨ ∃ svc n rs, o.srv svc n = .records rs ∧ rs ≠ [] ∧ ∀ r ∈ rs, Spec.rootTarget r = true := by
+    intro svc n rs hf
+    have hrec : o.srv svc n = .records rs ∧ rs ≠ [] := by
+      cases ha : o.srv svc n with
+      | records l =>
+        rw [ha] at hf
+        cases l with
+        | nil => simp [Spec.found] at hf
+        | cons x xs => simp only [Spec.found, Option.some.injEq] at hf; subst hf; exact ⟨rfl, by simp⟩
+      | notFound => rw [ha] at hf; simp [Spec.found] at hf
+      | dnsError => rw [ha] at hf; simp [Spec.found] at hf
+      | otherError => rw [ha] at hf; simp [Spec.found] at hf
+    by_cases hall : ∀ r ∈ rs, Spec.rootTarget r = true
+    · exact Or.inr ⟨svc, n, rs, hrec.1, hrec.2, hall⟩
+    · left
+      have : ∃ r, r ∈ rs ∧ Spec.rootTarget r = false := by
+        apply Classical.byContradiction
+        intro hne
+        apply hall
+        intro r hr
+        cases hrt : Spec.rootTarget r
+        · exact absurd ⟨r, hr, hrt⟩ hne
+        · rfl
+      obtain ⟨r, hr, hrt⟩ := this
+      unfold Spec.srvTargets
+      intro hnil
+      have hmem : r ∈ rs.filter (fun r => !Spec.rootTarget r) := List.mem_filter.mpr ⟨hr, by simp [hrt]⟩
+      have := List.map_eq_nil_iff.mp hnil
+      rw [this] at hmem
+      cases hmem
+  have hsrv : ∀ n, Spec.srvSteps o.srv n ≠ [] ∨ ∃ svc n rs, o.srv svc n = .records rs ∧ rs ≠ [] ∧ ∀ r ∈ rs, Spec.rootTarget r = true := by
     intro n
     unfold Spec.srvSteps
     split
     · rename_i rs hf
-      have := (hfound _ rs hf).2
-      cases rs with
-      | nil => exact absurd rfl this
-      | cons r rest => simp [Spec.srvTargets]
+      exact hfound _ n rs hf
     · split
-      · simp
-      · simp
+      · left; simp
+      · left; simp
       · split
         · rename_i rs hf
-          have := (hfound _ rs hf).2
-          cases rs with
-          | nil => exact absurd rfl this
-          | cons r rest => simp [Spec.srvTargets]
-        · simp
+          exact hfound _ n rs hf
+        · left; simp
   have hdir : ∀ hdr k ts', Spec.direct hdr k = some ts' → ts' ≠ [] := by
     intro hdr k ts' hk
     cases k with
@@ -182,7 +218,7 @@ theorem targets_nonempty_or_error (o : Oracles) (name : Cidr.Str) (hs : Spec.Srv
   | some k =>
     simp only [hk] at h
     cases hd : Spec.direct name k with
-    | some ts' => simp only [hd, Except.ok.injEq] at h; subst h; exact hdir _ _ _ hd
+    | some ts' => simp only [hd, Except.ok.injEq] at h; subst h; exact Or.inl (hdir _ _ _ hd)
     | none =>
       simp only [hd] at h
       cases hw : o.wk name with
@@ -194,7 +230,7 @@ theorem targets_nonempty_or_error (o : Oracles) (name : Cidr.Str) (hs : Spec.Srv
         | some kd =>
           simp only [hkd] at h
           cases hdd : Spec.direct d kd with
-          | some ts' => simp only [hdd, Except.ok.injEq] at h; subst h; exact hdir _ _ _ hdd
+          | some ts' => simp only [hdd, Except.ok.injEq] at h; subst h; exact Or.inl (hdir _ _ _ hdd)
           | none => simp only [hdd, Except.ok.injEq] at h; subst h; exact hsrv d
 
 /-- RoundTrip connects only to targets ResolveServer returned (or that the resolution cache held), each
@@ -275,12 +311,13 @@ theorem wellknown_honoured_only_if (r : Reply) (now : Int) (et : Option Int) (de
   obtain ⟨h1, _, h3, h4, h5, _⟩ := (wellknown_honoured_iff r now et decode res).mp h
   exact ⟨h1, h3, res.newAddress, h5, h4⟩
 
-/-- The cache lifetime is taken from max-age in preference to Expires: whenever Cache-Control carries a
-    well-formed max-age the Expires header is irrelevant; otherwise the parsed Expires time (else 0) is used. -/
+/-- The cache lifetime is taken from max-age in preference to Expires: whenever Cache-Control — ANY of its
+    header lines — carries a well-formed max-age the Expires header is irrelevant; otherwise the parsed
+    Expires time (else 0) is used. -/
 theorem cache_lifetime_prefers_max_age (r : Reply) (now : Int) (et : Option Int) (decode : Bytes → Decoded) (res : Result)
     (h : lookup r now et decode = .ok res) :
-    (∀ age, Spec.maxAge r.cacheControl = some age → res.cacheExpiresAt = wrap64 (age + now)) ∧
-    (Spec.maxAge r.cacheControl = none → res.cacheExpiresAt = if r.expires.isEmpty then 0 else et.getD 0) := by
+    (∀ age, Spec.maxAgeLines r.cacheControl = some age → res.cacheExpiresAt = wrap64 (age + now)) ∧
+    (Spec.maxAgeLines r.cacheControl = none → res.cacheExpiresAt = if r.expires.isEmpty then 0 else et.getD 0) := by
   obtain ⟨_, _, _, _, _, h6⟩ := (wellknown_honoured_iff r now et decode res).mp h
   rw [h6]
   unfold Spec.lifetime
@@ -290,8 +327,103 @@ theorem cache_lifetime_prefers_max_age (r : Reply) (now : Int) (et : Option Int)
 
 /-- non-vacuity: a reply with both headers; max-age wins -/
 example :
-    (lookup ⟨200, [], "public, max-age=3600".toList, "Wed, 21 Oct 2045 07:28:00 GMT".toList, [0x7B, 0x7D]⟩ 1000 (some 2392183680)
+    (lookup ⟨200, [], ["public, max-age=3600".toList], "Wed, 21 Oct 2045 07:28:00 GMT".toList, [0x7B, 0x7D]⟩ 1000 (some 2392183680)
       (fun _ => .ok [0x61])).toOption = some ⟨[0x61], 4600⟩ := by decide
+
+/-- the old failing input of finding R7, now behaving: `Cache-Control: no-cache` and, on a SECOND header line,
+    `Cache-Control: max-age=100`, plus an Expires header — the lifetime is now + 100, not the Expires time -/
+example :
+    (lookup ⟨200, [], ["no-cache".toList, "max-age=100".toList], "Wed, 21 Oct 2045 07:28:00 GMT".toList, [0x7B, 0x7D]⟩ 1000 (some 2392183680)
+      (fun _ => .ok [0x61])).toOption = some ⟨[0x61], 1100⟩ := by decide
+
+/-- "names an m.server": with encoding/json's syntax as `parse`, a reply is honoured only if its body is an
+    OBJECT with a member whose key is EXACTLY `m.server` — the last such member being a non-empty string, the
+    name delegated to.  Members whose keys merely fold to `m.server` play no part (`decodeDoc_exact_key`). -/
+theorem wellknown_names_mserver (r : Reply) (now : Int) (et : Option Int) (parse : Bytes → Option Json.PVal) (res : Result)
+    (h : lookup r now et (decodeBody parse) = .ok res) :
+    ∃ kvs raw, parse r.body = some (.obj kvs) ∧ (mServerMembers kvs).getLast? = some (.str raw res.newAddress) ∧
+      res.newAddress ≠ [] := by
+  obtain ⟨_, _, _, h4, h5, _⟩ := (wellknown_honoured_iff r now et _ res).mp h
+  unfold decodeBody at h4
+  cases hp : parse r.body with
+  | none => rw [hp] at h4; cases h4
+  | some p =>
+    rw [hp] at h4
+    simp only at h4
+    cases p with
+    | obj kvs =>
+      simp only [decodeDoc] at h4
+      cases hl : (mServerMembers kvs).getLast? with
+      | none => rw [hl] at h4; simp only [decodeLast, Decoded.ok.injEq] at h4; exact absurd h4.symm h5
+      | some v =>
+        rw [hl] at h4
+        cases v with
+        | str raw dec => simp only [decodeLast, Decoded.ok.injEq] at h4; subst h4; exact ⟨kvs, raw, rfl, hl, h5⟩
+        | null => simp only [decodeLast, Decoded.ok.injEq] at h4; exact absurd h4.symm h5
+        | bool b => simp [decodeLast] at h4
+        | num n => simp [decodeLast] at h4
+        | arr xs => simp [decodeLast] at h4
+        | obj o => simp [decodeLast] at h4
+    | null => simp only [decodeDoc, Decoded.ok.injEq] at h4; exact absurd h4.symm h5
+    | bool b => simp [decodeDoc] at h4
+    | num n => simp [decodeDoc] at h4
+    | str a b => simp [decodeDoc] at h4
+    | arr xs => simp [decodeDoc] at h4
+
+/-- only the members named exactly `m.server` matter: dropping every other member — `M.SERVER`, `m.ſerver`
+    included — changes nothing -/
+theorem decodeDoc_exact_key (kvs : List (Bytes × Bytes × Json.PVal)) :
+    decodeDoc (.obj kvs) = decodeDoc (.obj (kvs.filter (fun kv => kv.2.1 == mServerKey))) := by
+  simp only [decodeDoc, mServerMembers, List.filter_filter, Bool.and_self]
+
+/-- for documents with at most one member named `m.server` (the property's quantifier) the decoder honours
+    exactly what the specification's `namesServer` names -/
+theorem decodeDoc_names (kvs : List (Bytes × Bytes × Json.PVal)) (hone : (mServerMembers kvs).length ≤ 1) (a : Bytes) :
+    (decodeDoc (.obj kvs) = .ok a ∧ a ≠ []) ↔ Spec.namesServer (.obj kvs) = some a := by
+  simp only [decodeDoc, Spec.namesServer]
+  cases hm : mServerMembers kvs with
+  | nil =>
+    simp only [List.getLast?_nil, decodeLast, Decoded.ok.injEq]
+    constructor
+    · intro ⟨h1, h2⟩; exact absurd h1.symm h2
+    · intro h; cases h
+  | cons v rest =>
+    cases rest with
+    | cons v2 rest2 => rw [hm] at hone; simp at hone
+    | nil =>
+      simp only [List.getLast?_singleton]
+      cases v with
+      | str raw dec =>
+        simp only [decodeLast, Decoded.ok.injEq]
+        by_cases he : dec.isEmpty = true
+        · have : dec = [] := by simpa using he
+          subst this
+          simp only [List.isEmpty_nil, if_true]
+          constructor
+          · intro ⟨h1, h2⟩; exact absurd h1.symm h2
+          · intro h; cases h
+        · have hne : dec ≠ [] := by intro h; rw [h] at he; simp at he
+          simp only [he, Bool.false_eq_true, if_false, Option.some.injEq]
+          constructor
+          · intro ⟨h1, _⟩; exact h1
+          · intro h1; subst h1; exact ⟨rfl, hne⟩
+      | null =>
+        simp only [decodeLast, Decoded.ok.injEq]
+        constructor
+        · intro ⟨h1, h2⟩; exact absurd h1.symm h2
+        · intro h; cases h
+      | bool b => simp [decodeLast]
+      | num n => simp [decodeLast]
+      | arr xs => simp [decodeLast]
+      | obj o => simp [decodeLast]
+
+/-- the old failing inputs of finding R6, now behaving: a case variant of the key delegates nothing, and cannot
+    override the real one (keys and values as byte lists: `M.SERVER` / `m.server`, `evil` / `good`) -/
+example :
+    decodeDoc (.obj [([], [0x4D, 0x2E, 0x53, 0x45, 0x52, 0x56, 0x45, 0x52], .str [] [0x65, 0x76, 0x69, 0x6C])]) = .ok [] ∧
+    decodeDoc (.obj [([], [0x6D, 0x2E, 0x73, 0x65, 0x72, 0x76, 0x65, 0x72], .str [] [0x67, 0x6F, 0x6F, 0x64]),
+                     ([], [0x4D, 0x2E, 0x53, 0x45, 0x52, 0x56, 0x45, 0x52], .str [] [0x65, 0x76, 0x69, 0x6C])]) = .ok [0x67, 0x6F, 0x6F, 0x64] := by
+  decide
 
 end WellKnownSection
 
@@ -397,6 +529,143 @@ example : Cidr.control (["0.0.0.0/0".toList].map parseCIDR) (["10.0.0.0/8".toLis
 /-- the IPv4-mapped spelling of a denied IPv4 address is denied as well -/
 example : Cidr.control (["0.0.0.0/0".toList, "::/0".toList].map parseCIDR) (["10.0.0.0/8".toList].map parseCIDR)
     "tcp6".toList (some "::ffff:10.1.2.3".toList) = .denied := by decide
+
+/-! #### Where a client with allow / deny lists connects (findings R4, R5) -/
+
+open Resolve in
+/-- the first address that passes the control function and is listened on passes the control function -/
+theorem dialVia_permits (ctl : Str → Bool) (n : Resolve.Policy.Net) (host port ip : Str)
+    (h : Resolve.Policy.dialVia ctl n host port = some ip) : ctl ip = true := by
+  unfold Resolve.Policy.dialVia at h
+  have := List.mem_of_mem_head? h
+  have := (List.mem_filter.mp this).2
+  simp only [Bool.and_eq_true] at this
+  exact this.1
+
+open Resolve Resolve.Policy in
+theorem fedDial_permitted (c : Config) (n : Net) (host port ip : Str) (h : fedDial c n host port = some ip) :
+    permittedBy c ip = true := by
+  unfold fedDial at h
+  unfold permittedBy
+  by_cases hc : c.cache = true
+  · simp only [hc, if_true] at h
+    have := dialVia_permits _ n host port ip h
+    simp only [Bool.and_eq_true] at this
+    simp [hc, this.1, this.2]
+  · have hc' : c.cache = false := by simpa using hc
+    simp only [hc', Bool.false_eq_true, if_false] at h
+    have := dialVia_permits _ n host port ip h
+    simp [hc', this]
+
+open Resolve Resolve.Policy in
+theorem wkDial_permitted (c : Config) (n : Net) (host port ip : Str) (h : wkDial c n host port = some ip) :
+    permittedBy c ip = true := by
+  unfold wkDial at h
+  by_cases hr : restricted c = true
+  · simp only [hr, if_true] at h
+    exact fedDial_permitted c n host port ip h
+  · -- no lists and no cache: everything is permitted
+    have hr' : restricted c = false := by simpa using hr
+    unfold restricted at hr'
+    simp only [Bool.or_eq_false_iff, Bool.not_eq_false'] at hr'
+    unfold permittedBy clientControl
+    simp [hr'.1, hr'.2]
+
+open Resolve Resolve.Policy in
+theorem wkFetch_permitted (c : Config) (n : Net) (fuel : Nat) (host : Str) :
+    ∀ a ∈ (wkFetch c n fuel host).1, permittedBy c a.1 = true := by
+  induction fuel generalizing host with
+  | zero => intro a ha; simp [wkFetch] at ha
+  | succ k ih =>
+    intro a ha
+    unfold wkFetch at ha
+    cases hd : wkDial c n host "443".toList with
+    | none => rw [hd] at ha; simp at ha
+    | some ip =>
+      rw [hd] at ha
+      have hip := wkDial_permitted c n host _ ip hd
+      cases hdoc : n.wkDoc (host.map Char.toLower) with
+      | none => rw [hdoc] at ha; simp at ha; rw [ha]; exact hip
+      | server d => rw [hdoc] at ha; simp at ha; rw [ha]; exact hip
+      | redirect h2 =>
+        rw [hdoc] at ha
+        simp only [List.mem_cons] at ha
+        rcases ha with rfl | ha
+        · exact hip
+        · exact ih h2 a ha
+
+open Resolve Resolve.Policy in
+theorem tryDial_permitted (c : Config) (n : Net) (ts : List Target) :
+    ∀ a ∈ (tryDial c n ts).1, permittedBy c a.1 = true := by
+  induction ts with
+  | nil => intro a ha; simp [tryDial] at ha
+  | cons t rest ih =>
+    intro a ha
+    unfold tryDial at ha
+    cases hd : fedDial c n (splitDest t.dest).1 (splitDest t.dest).2 with
+    | some ip =>
+      simp only [hd] at ha
+      have : a = (ip, (splitDest t.dest).2) := by simpa using ha
+      rw [this]
+      exact fedDial_permitted c n _ _ ip hd
+    | none =>
+      simp only [hd] at ha
+      exact ih a ha
+
+open Resolve Resolve.Policy in
+/-- `policy_connections_permitted` (C16, last sentence): whatever the server name, the DNS answers, the
+    well-known documents and redirects, the listeners — EVERY connection a client makes for a request
+    (federation targets, through the DNS cache or not, the well-known fetch and the redirects it follows)
+    goes to an address the client's dialer control (its allow / deny lists, when it has any) lets through
+    and, when the client has a DNS cache, the cache's lists let through as well. -/
+theorem policy_connections_permitted (c : Config) (n : Net) (name : Str) :
+    ∀ a ∈ (request c n name).arrivals, permittedBy c a.1 = true := by
+  intro a ha
+  unfold request at ha
+  by_cases hw : c.wellKnown = true
+  · simp only [hw, if_true] at ha
+    have hwk : ∀ x ∈ (match resolveDirect name with
+        | .ok none => (wkFetch c n 11 name).1
+        | _ => []), permittedBy c x.1 = true := by
+      intro x hx
+      split at hx
+      · exact wkFetch_permitted c n 11 name x hx
+      · cases hx
+    split at ha
+    · exact hwk a ha
+    · rename_i ts hres
+      simp only [List.mem_append] at ha
+      rcases ha with ha | ha
+      · exact hwk a ha
+      · exact tryDial_permitted c n ts a ha
+  · have hw' : c.wellKnown = false := by simpa using hw
+    simp only [hw', Bool.false_eq_true, if_false] at ha
+    exact tryDial_permitted c n _ a ha
+
+open Resolve Resolve.Policy in
+/-- the lists' verdict is the specification's: in no denied range and in at least one allowed range -/
+theorem listsPermit_iff_permitted (allow deny : List Str) (ip : Str) (a : Nat) (hp : Cidr.parseIP ip = some a) (hip : a < 2 ^ 128)
+    (ha : ∀ c ∈ Spec.parsable (allow.map parseCIDR), c.WF) (hd : ∀ c ∈ Spec.parsable (deny.map parseCIDR), c.WF) :
+    listsPermit allow deny ip = true ↔ Spec.permitted (normalise a) (allow.map parseCIDR) (deny.map parseCIDR) := by
+  unfold listsPermit
+  rw [hp]
+  exact isAllowed_iff_permitted a _ _ ha hd hip
+
+open Resolve Resolve.Policy in
+/-- the old failing inputs of findings R4 and R5, now behaving (deny 127.0.0.0/8; h1 is 127.16.1.1, listened on at
+    ports 443 and 5): the well-known fetch makes no connection; a DNS cache with open lists makes none either -/
+example :
+    let n : Net := { addrs := fun h => if h = "h1.example.com".toList then ["127.16.1.1".toList] else [],
+                     listening := fun ip p => ip = "127.16.1.1".toList && (p = "443".toList || p = "5".toList),
+                     wkDoc := fun _ => .none }
+    let all := ["0.0.0.0/0".toList, "::/0".toList]
+    let deny := ["127.0.0.0/8".toList]
+    (request ⟨true, false, all, deny, all, deny⟩ n "h1.example.com".toList).arrivals = [] ∧
+    (request ⟨false, true, all, deny, all, []⟩ n "h1.example.com:5".toList).arrivals = [] ∧
+    -- control: without the deny entry the connections are made
+    (request ⟨true, false, all, [], all, []⟩ n "h1.example.com".toList).arrivals = [("127.16.1.1".toList, "443".toList)] ∧
+    (request ⟨false, true, all, [], all, []⟩ n "h1.example.com:5".toList).arrivals = [("127.16.1.1".toList, "5".toList)] := by
+  decide
 
 end Policy
 
